@@ -95,8 +95,17 @@ def run_case(case, rec):
         params = Params(nn_params=net.nn_params(), eq_params=eq)
         u0 = rng.uniform(-1, 1, n_out)
         t0 = case["t0"]
-        loss = guard.call(jinns.loss.LossODE, u=u, dynamic_loss=None, initial_condition=(t0, jnp.asarray(u0)),
-                          loss_weights=jinns.loss.LossWeightsODE(initial_condition=w), params=params)
+        # the ways a user writes (t0, u0) and the weight: Python number / 0-d array / length-one array for t0, an array
+        # or (scalar unknown) a Python number for u0
+        form = case["seed"] % 6
+        t0_given = [t0, jnp.asarray(t0), jnp.asarray([t0])][form % 3]
+        u0_given = float(u0[0]) if (n_out == 1 and form >= 3) else jnp.asarray(u0)
+        # (one weight: the statement does not promise per-component weights for this term and LossODE applies the
+        # weight after the sum over components; the weight is given as a Python number or as a 0-d array)
+        rec.count("ic_ode_form_%d" % form)
+        loss = guard.call(jinns.loss.LossODE, u=u, dynamic_loss=None, initial_condition=(t0_given, u0_given),
+                          loss_weights=jinns.loss.LossWeightsODE(initial_condition=jnp.asarray(w) if form in (1, 4) else w),
+                          params=params)
         B = case["B"]
         batch = jinns.data.ODEBatch(temporal_batch=jnp.asarray(rng.uniform(0, 1, B)))
         thetas = None
@@ -105,9 +114,9 @@ def run_case(case, rec):
             batch = jinns.data.append_param_batch(batch, {"theta": jnp.asarray(thetas)})
         total, terms = guard.call(jit_eval, loss, params, batch)
         if thetas is None:
-            exp = w * float(np.sum((net.val([t0], {"theta": 1.7}) - u0) ** 2))
+            exp = float(np.sum(w * (net.val([t0], {"theta": 1.7}) - u0) ** 2))
         else:
-            exp = float(np.mean([w * np.sum((net.val([t0], {"theta": th[0]}) - u0) ** 2) for th in thetas]))
+            exp = float(np.mean([np.sum(w * (net.val([t0], {"theta": th[0]}) - u0) ** 2) for th in thetas]))
         rec.count("ic_cases")
         finish("initial_condition", float(terms["initial_condition"]), exp,
                "initial-condition/ode" + ("/param-batch" if case["pbatch"] else ""),
